@@ -252,6 +252,28 @@ mutual
       · exact absurd h (by simp)
 end
 
+/-- a position the parser may report an error at: that of an `S`-token — a valid one on a
+    lexer-shaped stream -/
+def VPos (EL : Lvl) (S : Item → Prop) (p : Nat) : Prop := ErrOK EL S p
+
+theorem vpos_of {EL : Lvl} {S : Item → Prop} {it : Item} (hs : S it) (hv : EL.lex → valid it) : VPos EL S it.pos :=
+  ⟨⟨it, hs, rfl⟩, fun hl => ⟨it, hs, hv hl, rfl⟩⟩
+
+open SoyVerif.Model.FileParser in
+/-- the case nodes of a switch stand at positions an error may be reported at -/
+def casesV (EL : Lvl) (S : Item → Prop) : NodeList → Prop
+  | .nil => True
+  | .cons c r => VPos EL S c.pos ∧ casesV EL S r
+
+open SoyVerif.Model.FileParser in
+theorem casesV_append {EL : Lvl} {S : Item → Prop} : ∀ (a b : NodeList), casesV EL S a → casesV EL S b →
+    casesV EL S (a.append b)
+  | .nil, b, _, hb => by simpa [NodeList.append] using hb
+  | .cons n r, b, ha, hb => by
+    simp only [casesV] at ha
+    simp only [NodeList.append, casesV]
+    exact ⟨ha.1, casesV_append r b ha.2 hb⟩
+
 /-- position goals: unfold the predicates and close the leaves from the context -/
 macro "np" : tactic => `(tactic|
   (simp only [NP, NPL, EPo]
